@@ -55,7 +55,7 @@ def run(rep: Report, tier: str, seed: int) -> None:
 
             def viol(clause: str, detail: dict, g=g, tag=tag) -> None:
                 rep.violation(
-                    clause, f"{clause}:{tag}|{s.label.split('|')[0]}|root:{s.r_root}|sub:{s.r_sub}",
+                    clause, f"{clause}:{tag}|{s.label.split('|')[0]}{'+shadow' if s.shadow else ''}|root:{s.r_root}|sub:{s.r_sub}",
                     {"tree": s.label, "decl": g.api_id, "aliases": sorted(g.aliases), "stub_files": sorted(p for p in obs.stubs() if f"t{s.T}" in p), **detail},
                     files=pack_trees([s])[0], src_rel=PKG, opts=opts,
                 )
